@@ -369,9 +369,16 @@ impl<const K: usize> AffTree<K> {
                 let node_solutions = AffTree::<K>::mirror_points(poly, &array, 8);
 
                 if let Some((node_solutions, iter)) = node_solutions {
+                    // The heuristic judges containment on normalised rows, `contains` (the test every
+                    // cached witness has to pass) on the raw ones with an absolute tolerance. With
+                    // coordinates of order 1e9 the two round differently: a parent witness can pass
+                    // here in iteration 0 although the inheritance test rejected it, and a point the
+                    // heuristic accepts can fail `contains`. Only points that pass `contains` are
+                    // cached; if none does, the LP decides.
                     let vec = node_solutions
                         .axis_iter(Axis(1))
                         .map(|x| x.to_owned())
+                        .filter(|point| poly.contains(point))
                         .collect_vec();
 
                     debug!(
@@ -380,14 +387,11 @@ impl<const K: usize> AffTree<K> {
                         iter
                     );
 
-                    debug_assert!(
-                        iter > 0,
-                        "if solutions can be inherited, it should have already occurred in a previous step"
-                    );
-                    debug_assert!(vec.iter().all(|point| poly.contains(point)));
-                    counter.mirror_iter.push(iter);
+                    if !vec.is_empty() {
+                        counter.mirror_iter.push(iter);
 
-                    return NodeState::FeasibleWitness(vec);
+                        return NodeState::FeasibleWitness(vec);
+                    }
                 }
             }
             NodeState::Feasible => {
